@@ -10,18 +10,19 @@ CONSTANTS TMin, TMax          \* T_RX_ACK_MIN / T_RX_ACK_MAX of the ASH text, in
 InWindow(dt) == dt \in (TMin - 1) .. (TMax + 1)
 
 Traces == JsonDeserialize(IOEnv.TRACE_FILE)
-VARIABLES h, obs, o4, tw, tid, l
-tvars == <<h, obs, o4, tw, tid, l>>
+VARIABLES h, obs, o4, tw, canc, tid, l
+tvars == <<h, obs, o4, tw, canc, tid, l>>
 Tr == Traces[tid]
 
 TInit == /\ tid \in 1 .. Len(Traces) /\ l = 1
-         /\ h = HInit /\ obs = ObsInit /\ o4 = Obs4Init /\ tw = 0
+         /\ h = HInit /\ obs = ObsInit /\ o4 = Obs4Init /\ tw = 0 /\ canc = {}
 
 Proj(s, K) == SelectSeq(s, LAMBDA o : o.o \in K)
 SameOut(a, b) == /\ LET wa == Proj(a, {"write"}) wb == Proj(b, {"write"}) IN
                       Len(wa) = Len(wb) /\ \A i \in 1 .. Len(wa) : MatchFrame(wa[i].f, wb[i].f)
                  /\ Proj(a, {"up_data", "up_reset"}) = Proj(b, {"up_data", "up_reset"})
-                 /\ Proj(a, {"done"}) = Proj(b, {"done"})
+                 \* a cancelled caller hears nothing any more; its send goes on behind the shield
+                 /\ Proj(a, {"done"}) = SelectSeq(b, LAMBDA o : o.o = "done" /\ o.id \notin canc)
 HasData(out) == \E i \in 1 .. Len(out) : out[i].o = "write" /\ out[i].f.type = "DATA"
 
 (* nothing escapes a protocol callback - unless the upper layer (the harness's own, on request) raised while consuming a delivery: that *)
@@ -32,6 +33,7 @@ Apply(e, r, ins) == /\ SameOut(e.out, r.out) /\ NoRaise(e)
                     /\ obs' = ObsStep(obs, ins, e.out)
                     /\ o4' = Obs4Step(o4, ins, e.out)
                     /\ tw' = IF HasData(e.out) THEN e.t ELSE tw
+                    /\ UNCHANGED canc
 
 TNext == /\ l <= Len(Tr)
          /\ LET e == Tr[l] IN
@@ -40,9 +42,11 @@ TNext == /\ l <= Len(Tr)
               \/ e.a = "recv" /\ e.late = 1 /\ InWindow(e.t - tw) /\ Apply(e, StepRecvLate(h, e.fs), e.fs)
               \/ e.a = "tick" /\ TimerEnabled(h) /\ InWindow(e.t - tw) /\ Apply(e, StepTick(h), <<>>)
               \* a timer of the loop fired and nothing observable happened while the ACK timer is not overdue: stuttering
-              \/ e.a = "tick" /\ e.out = <<>> /\ (~TimerEnabled(h) \/ e.t - tw < TMax) /\ UNCHANGED <<h, obs, o4, tw>>
+              \/ e.a = "tick" /\ e.out = <<>> /\ (~TimerEnabled(h) \/ e.t - tw < TMax) /\ UNCHANGED <<h, obs, o4, tw, canc>>
+              \* cancelling the caller of a send changes nothing on the link: no output now, the frame's life goes on as if nothing had happened
+              \/ e.a = "cancel" /\ e.out = <<>> /\ canc' = canc \cup {e.id} /\ UNCHANGED <<h, obs, o4, tw>>
               \/ e.a = "end" /\ h.cur.id = 0 /\ h.q = <<>> /\ e.pending = <<>> /\ e.out = <<>>
-                             /\ UNCHANGED <<h, obs, o4, tw>>
+                             /\ UNCHANGED <<h, obs, o4, tw, canc>>
          /\ l' = l + 1
          /\ UNCHANGED tid
 
